@@ -6,7 +6,7 @@ import numpy as np
 from props.common import load_impl, exc_name, conj_prov
 
 RULE = ("random fit/score call histories (4-10 calls quick, up to 20 thorough) over 1-3 importance objects (methods neighbor K=1, neighbor K=2/ADD path, bruteforce, "
-        "montecarlo) sharing datasets, provenance objects and one utility (whose model object is watched); byte snapshots of every caller-owned object - feature "
+        "montecarlo) sharing datasets, provenance objects and one utility (accuracy or equalized-odds difference; its model object is watched); byte snapshots of every caller-owned object - feature "
         "arrays, label arrays / Series (values and index), Provenance objects (data and Units lists) and provenance given as integer id arrays (1-D and (unit, candidate) pairs), the distance matrix returned by a recording distance callable, the "
         "utility's model get_params() and fitted attributes - are taken before the history and compared after EVERY call; every score is compared with the score of a "
         "fresh object fitted on the same data (no leakage from earlier fits/scores) and repeated neighbor/bruteforce scores must be identical. Non-trivial = history "
@@ -37,7 +37,7 @@ def run(ctx):
     U = I["utility"]
     rng = ctx.rng
     q = ctx.tier == "quick"
-    n_hist = 10 if q else 60
+    n_hist = 16 if q else 80
     for h in range(n_hist):
         nprng = np.random.RandomState(rng.randrange(2 ** 31))
         # shared pool of datasets
@@ -45,11 +45,14 @@ def run(ctx):
         for d in range(rng.randint(2, 3)):
             n = rng.randint(3, 5)
             X = np.round(nprng.randn(n, 2), 3)
+            X[:, 1] = (X[:, 1] > 0).astype(float)           # a binary 'sensitive' column (used by the equalized-odds utility)
             y = np.array([i % 2 for i in range(n)])
             nprng.shuffle(y)
             m = rng.randint(2, 3)
             Xv = np.round(nprng.randn(m, 2), 3)
-            yv = np.array([rng.randrange(2) for _ in range(m)])
+            Xv[:, 1] = (Xv[:, 1] > 0).astype(float)
+            yv = np.array([k % 2 for k in range(m)])
+            rng.shuffle(yv)
             n_units = rng.randint(2, 3)
             prov_kind = rng.choice(["none", "conj", "series", "ids1d", "pairs2d"])
             prov = None
@@ -65,7 +68,13 @@ def run(ctx):
             D = np.abs(X[:, None, 0] - Xv[None, :, 0]) + np.arange(n)[:, None] * 1e-3
             datasets.append(dict(X=X, y=ylab, Xv=Xv, yv=yv, prov=prov, D=D))
         model = KNeighborsClassifier(1)
-        util = U.SklearnModelAccuracy(model)
+        util_kind = rng.choice(["accuracy", "eqodds"])
+
+        def make_util(mdl):
+            if util_kind == "eqodds":
+                return U.SklearnModelEqualizedOddsDifference(mdl, sensitive_features=1)
+            return U.SklearnModelAccuracy(mdl)
+        util = make_util(model)
         watched = {"model": model}
         for i, d in enumerate(datasets):
             watched.update({"X%d" % i: d["X"], "y%d" % i: d["y"], "Xv%d" % i: d["Xv"], "yv%d" % i: d["yv"], "D%d" % i: d["D"]})
@@ -73,15 +82,17 @@ def run(ctx):
                 watched["prov%d" % i] = d["prov"]
         before = snap(watched)
         methods = [rng.choice(["neighbor", "neighborK", "bruteforce", "montecarlo"]) for _ in range(rng.randint(1, 3))]
+        if util_kind == "eqodds":
+            methods[0] = "bruteforce"           # the metric path of this utility (groupings derived from the validation features) is used by bruteforce/montecarlo
 
-        def make(method):
+        def make(method, utility=None):
             kw = {}
             if method == "neighborK":
                 kw = dict(nn_k=2)
             if method == "montecarlo":
                 kw = dict(mc_iterations=3, mc_truncation_steps=0, seed=11)
             meth = "neighbor" if method.startswith("neighbor") else method
-            return I["imp"].ShapleyImportance(method=meth, utility=util, **kw)
+            return I["imp"].ShapleyImportance(method=meth, utility=(util if utility is None else utility), **kw)
         objs = [make(mth) for mth in methods]
         fitted = [None] * len(objs)
         ops = []
@@ -119,7 +130,7 @@ def run(ctx):
                             ctx.mismatch("score() modified the distance matrix returned by the distance callable", dict(case, step=k), impl="distance matrix changed")
                             bad = True
                             break
-                        fresh = make(methods[o])
+                        fresh = make(methods[o], utility=make_util(KNeighborsClassifier(1)))      # fresh importance object AND fresh utility
                         fresh.nn_distance = lambda A, B, Dm=keep: Dm.copy()
                         fs = list(np.asarray(fresh.fit(fd["X"], fd["y"], provenance=fd["prov"]).score(d["Xv"], d["yv"]), dtype=float))
                         if s != fs and not (methods[o] == "montecarlo"):
@@ -146,7 +157,7 @@ def run(ctx):
                 break
         n_fit = len({di for op, o, di in ops if op == "fit"})
         n_score = sum(1 for op, _, _ in ops if op == "score")
-        ctx.case(case, nontrivial=(n_fit >= 2 and n_score >= 2), sample=dict(methods=methods, ops=ops), n_objs=len(objs))
+        ctx.case(case, nontrivial=(n_fit >= 2 and n_score >= 2), sample=dict(methods=methods, ops=ops), n_objs=len(objs), utility=util_kind)
         ctx.maxi(ops=len(ops))
         for mth in methods:
             ctx.dist["method=" + mth] += 1
